@@ -399,16 +399,16 @@ def main(ctx):
         for dim in (0, 1):
             for qq in (0.01, 0.5, 0.99, 1 - 1e-4, 1 - 1e-6):
                 for n_s in ((10000,) if q else (10000, 100000)):
-                    for seed in ((1,) if q else (1, 2)):
-                        lv = [0.5, 0.99] if (qq in (0.5, 0.99) and n_s == 10000 and seed == 1) else []
-                        cases.append({"kind": "conditional", "model": name, "dim": dim, "q": qq, "n": n_s, "seed": seed + s, "levels": lv})
+                    for seed in ((0,) if (q and dim == 0) else ((1,) if q else (0, 1, 2))):
+                        lv = [0.5, 0.99] if (qq in (0.5, 0.99) and n_s == 10000 and seed in (0, 1)) else []
+                        cases.append({"kind": "conditional", "model": name, "dim": dim, "q": qq, "n": n_s, "seed": (seed + s) if seed else 0, "levels": lv})
     if q:
-        cfgs = [("windmeier", 1e-2, 4, 0.1, 42), ("nonzero", 1e-2, 4, 0.1, 7)]
+        cfgs = [("windmeier", 1e-2, 4, 0.1, 42), ("nonzero", 1e-2, 4, 0.1, 0)]   # random_state 0 is falsy: part of the alphabet
     else:
         cfgs = [(mn, a, k, pf, rs) for mn in ("windmeier", "nonzero") for a in (1e-2, 1e-4) for k in (4, 8) for pf in (0.1, 0.2)
-                for rs in (42, 7)] + [("wide", 1e-2, 4, 1.0, 42)]
+                for rs in (42, 7)] + [("wide", 1e-2, 4, 1.0, 42), ("windmeier", 1e-2, 4, 0.1, 0), ("nonzero", 1e-4, 8, 0.2, 0)]
     for mn, a, k, pf, rs in cfgs:
-        cases.append({"kind": "iform", "model": mn, "alpha": a, "n_points": k, "pf": pf, "rs": rs + s})
+        cases.append({"kind": "iform", "model": mn, "alpha": a, "n_points": k, "pf": pf, "rs": (rs + s) if rs else 0})
     for c in cases:
         ctx.axis("kind", c["kind"])
     cases.sort(key=lambda c: {"iform": 0, "pushforward": 1, "conditional": 2, "transforms": 3}[c["kind"]])
